@@ -68,3 +68,25 @@ func init() {
 		}
 	})
 }
+
+// INFEAS: developer aid listing the edges the infeasible-edge oracle prunes in functions matching $MQTTCHECK_FN.
+func init() {
+	register("INFEAS", "developer aid", func(r *Run) {
+		want := os.Getenv("MQTTCHECK_FN")
+		for _, f := range r.C.Funcs {
+			if want != "" && !strings.Contains(FuncName(f), want) {
+				continue
+			}
+			for _, b := range f.Blocks {
+				if k, ok := infeasibleEdges[b]; ok {
+					fmt.Printf("INFEAS %s block %d edge %d\n", FuncName(f), b.Index, k-1)
+				}
+			}
+		}
+		for _, m := range r.C.Pkg.Members {
+			if g, ok := m.(*ssa.Global); ok && strings.HasPrefix(g.Name(), "Err") {
+				fmt.Printf("SENTINEL %s nonnil=%v\n", g.Name(), r.C.sentinelNonNil(g))
+			}
+		}
+	})
+}
